@@ -79,6 +79,26 @@ class SimRawReader(io.RawIOBase):
             raise SimBudgetExceeded('bytes read %d > budget %d' % (self.bytes_read, self.budget_bytes))
         return len(chunk)
 
+    def read(self, n=-1):
+        # (served from the buffer directly: RawIOBase.read(n) would first allocate n bytes, and a garbage length field read
+        #  from a cut file can ask for terabytes)
+        self.calls += 1
+        if self.budget_calls is not None and self.calls > self.budget_calls:
+            raise SimBudgetExceeded('read calls %d > budget %d (size %d)' % (self.calls, self.budget_calls, self.size))
+        if n is None or n < 0:
+            n = len(self._data) - self._pos
+        if self.short_reads:
+            n = min(n, self.short_reads)
+        chunk = self._data[self._pos:self._pos + n]
+        self._pos += len(chunk)
+        self.bytes_read += len(chunk)
+        if self.budget_bytes is not None and self.bytes_read > self.budget_bytes:
+            raise SimBudgetExceeded('bytes read %d > budget %d' % (self.bytes_read, self.budget_bytes))
+        return chunk
+
+    def readall(self):
+        return self.read(-1)
+
     def seek(self, off, whence=0):
         if whence == 0:
             self._pos = off
